@@ -7,6 +7,9 @@ All theorems hold for EVERY multigraph without self-loops (parallel / reversed p
 status pattern and EVERY history of control actions, graph updates and isolation computations on one simulator object.
 -/
 import WntrModel.Lemmas.IsolationSim
+import WntrModel.Lemmas.IsolationRun
+import WntrModel.Lemmas.IsolationProg
+import WntrModel.Gen.IsolationShape
 
 namespace Wntr.Isolation
 
@@ -121,6 +124,95 @@ theorem isolated_reported_zero {α} (zero : α) (solved : JRes α) (f : α) :
 theorem connected_reported_solved {α} (zero : α) (solved : JRes α) (f : α) :
     storeJunction zero false solved = solved ∧ storeLink zero false f = f := ⟨rfl, rfl⟩
 
+/-! ## 5. the source text: what is compiled / interpreted is what the theorems above are about
+
+`Gen/IsolationShape.lean` is rewritten on every run from `network_isolation.cpp` (tokenizer + recursive descent) and from
+`wntr/sim/core.py` (Python `ast`).  `Prog.refSearch` is the program `checkIsolated` is the meaning of (`exec_ref`, every input). -/
+
+/-- **cpp_search_is_reference**: the statement skeleton parsed from the C++ source (loop nest, bounds, array loads, the `== 1`
+tests, the stores into `node_indicator`, take-the-largest-out and `insert`) IS the reference program. -/
+theorem cpp_search_is_reference : Gen.cppSearch = Prog.refSearch := by decide
+
+/-- the parameter order of the C++ function and the argument order of the Python call agree, array by array -/
+theorem cpp_call_is_reference :
+    Gen.cppParams = Prog.refParams ∧ Gen.callArgs = Prog.refCallArgs ∧ Gen.callArgs = Gen.cppParams.map Prog.argFor := by decide
+
+/-- counted loops of the reference program never assign their own counter or bound (what makes `exec`'s reading of `for` exact) -/
+theorem reference_program_wf : Prog.refSearch.wf = true := by decide
+
+/-- **cpp_search_means_checkIsolated**: running the parsed program text on ANY input leaves exactly the indicator
+`checkIsolated` computes (whatever the scalar locals and the set held before). -/
+theorem cpp_search_means_checkIsolated (g : Csr) (srcs : List Nat) (st : Prog.St) :
+    (Prog.exec { sources := srcs, g := g } Gen.cppSearch st).ind = checkIsolated g srcs st.ind := by
+  rw [cpp_search_is_reference]; exact Prog.exec_ref g srcs st
+
+/-- hence the program text clears exactly the live nodes reachable from a live source through `data == 1` entries -/
+theorem cpp_search_reaches_exactly (g : Csr) (srcs : List Nat) (st : Prog.St) (v : Nat) :
+    (Reached g srcs st.ind v → (Prog.exec { sources := srcs, g := g } Gen.cppSearch st).ind.getD v 0 = 0) ∧
+    (¬ Reached g srcs st.ind v → (Prog.exec { sources := srcs, g := g } Gen.cppSearch st).ind.getD v 0 = st.ind.getD v 0) := by
+  rw [cpp_search_means_checkIsolated]; exact dfs_reaches_exactly g srcs st.ind v
+
+/-- **search_fuel_suffices**: the `while` loop of every source always ends because the set is empty, never because the fuel
+(number of nodes) of the model ran out: each pass takes one node out and every insertion clears a `1` of the indicator. -/
+theorem search_fuel_suffices (g : Csr) (s : Nat) (ind : List Int) (h : ind.getD s 0 = 1) :
+    (explore g ind.length (ind.set s 0) [s]).2 = [] := Prog.search_fuel_suffices_aux g s ind h
+
+/-- **python_shape_is_reference**: `_initialize_internal_graph` walks pipes, pumps, valves (then all links for the position map,
+tanks then reservoirs for the sources), `run_sim` seeds the previously-isolated sets from ALL junctions and ALL links,
+`_update_internal_graph` / `_get_isolated_junctions_and_links` have the statement skeleton `updateGraph` / `getIsolated`
+transliterate, and the loop body of `run_sim` calls them in the order `runPass` is written for. -/
+theorem python_shape_is_reference :
+    Gen.iter = Prog.refIter ∧ Gen.updateToks = Prog.refUpdateToks ∧ Gen.isolatedToks = Prog.refIsolatedToks ∧
+    Gen.loopToks = Prog.refLoopToks := by decide
+
+/-! ## 6. run level: every reported step, pauses and restarts included -/
+
+/-- **restart_restores_invariant**: when `run_sim` starts on a network that still carries flags of an earlier run (a continued
+simulation, possibly a NEW simulator object), seeding `_prev_isolated_*` from the flags of all junctions and all links — pipes,
+pumps and valves — re-establishes the invariant, whatever the flags were. -/
+theorem restart_restores_invariant {s : Sim} (hw : FlagsWf s) (hinit : InitOk s.net) :
+    Good (startRun s).2 ∧ Synced (startRun s).2 := good_restart hw.lenJ hw.lenL hw.src hinit
+
+/-- **reported_zero_iff_cut_off**: for every network (pipes, pumps, valves; parallel links), every list of legs (pause /
+continue) and every list of passes of the loop body with ANY status actions of presolve / postsolve / feasibility controls on
+existing links, every row `save_results` records shows a junction as zero iff, by the statuses reported IN THAT ROW, no path of
+non-Closed links (Open and Active count as open) joins it to a tank or reservoir, and a link as zero iff it touches such a
+junction. -/
+theorem reported_zero_iff_cut_off {s : Sim} (hw : FlagsWf s) (hinit : InitOk s.net) (legs : List (List Pass))
+    (hl : ∀ l ∈ legs, ∀ p ∈ l, PassOk s.net p) : ∀ r ∈ (runLegs s legs).2, RowOk s.net r :=
+  (runLegs_ok hw hinit legs hl).2.2
+
+/-- "for as long as it is cut off": in EVERY reported row in which junction `v` is cut off, its head, demand, pressure and leak
+and the flow of each of its links are reported as zero -/
+theorem cut_off_reported_zero {α} (zero : α) {s : Sim} (hw : FlagsWf s) (hinit : InitOk s.net) (legs : List (List Pass))
+    (hl : ∀ l ∈ legs, ∀ p ∈ l, PassOk s.net p) (r : Row) (hr : r ∈ (runLegs s legs).2) (v : Nat) (hv : v < s.net.n)
+    (hcut : ¬ Connected s.net (fun k => r.status.getD k 0) v) (solved : JRes α) :
+    (r.junction zero v solved).demand = zero ∧ (r.junction zero v solved).pressure = zero ∧
+    (r.junction zero v solved).head = zero ∧ (r.junction zero v solved).leak = zero ∧
+    ∀ l ∈ s.net.linksOf v, ∀ f : α, r.linkFlow zero l f = zero := by
+  obtain ⟨hJ, hL⟩ := reported_zero_iff_cut_off hw hinit legs hl r hr
+  have e : r.isoJ.getD v false = true := (hJ v).mpr ⟨hv, hcut⟩
+  unfold Row.junction Row.linkFlow
+  rw [e]
+  refine ⟨rfl, rfl, rfl, rfl, ?_⟩
+  intro l hl' f
+  have hlt : l < s.net.nl := by
+    unfold Net.linksOf at hl'
+    exact List.mem_range.mp (List.mem_filter.mp hl').1
+  rw [(hL l).mpr ⟨hlt, v, hv, hcut, hl'⟩]
+  rfl
+
+/-- a junction with a path of non-Closed links to a source is reported with the solver's values in every row; in particular a
+zone that was cut off in an earlier row and is reconnected reports normal results again -/
+theorem connected_reported_solved_run {α} (zero : α) {s : Sim} (hw : FlagsWf s) (hinit : InitOk s.net) (legs : List (List Pass))
+    (hl : ∀ l ∈ legs, ∀ p ∈ l, PassOk s.net p) (r : Row) (hr : r ∈ (runLegs s legs).2) (v : Nat)
+    (hc : Connected s.net (fun k => r.status.getD k 0) v) (solved : JRes α) : r.junction zero v solved = solved := by
+  obtain ⟨hJ, _⟩ := reported_zero_iff_cut_off hw hinit legs hl r hr
+  unfold Row.junction
+  cases e : r.isoJ.getD v false with
+  | false => rfl
+  | true => exact absurd hc ((hJ v).mp e).2
+
 end Wntr.Isolation
 
 /-! ## non-vacuity: a reservoir (0), two parallel links 0–1 (one reversed) and a link 1–2 -/
@@ -142,5 +234,25 @@ example : (run exSim [.act true 0 0, .act true 1 0, .prepare]).isoJ = [false, tr
 example : (run exSim [.act true 0 0, .act true 1 0, .prepare]).isoL = [true, true, true] := by decide
 example : (run exSim [.act true 0 0, .act true 1 0, .prepare, .act true 1 1, .prepare]).isoJ = [false, false, false] := by decide
 example : (run exSim [.act true 0 0, .act true 1 0, .prepare, .act true 1 1, .prepare]).g.data = [1, 1, 1, 1] := by decide
+
+/-! run level: reservoir 0 — pipe — 1 — PUMP — 2 — VALVE (Active) — 3; the pipe is closed for one reported step, the run is paused
+while 1, 2, 3 are cut off and continued (new `startRun`) with the pipe reopened at the first step -/
+def exNet2 : Net :=
+  { n := 4, links := [(0, 1), (1, 2), (2, 3)], kind := [.pipe, .pump, .valve], initOrder := [0, 1, 2], sources := [0] }
+
+def exLegs : List (List Pass) :=
+  [[{ pre := [], post := [], report := true }, { pre := [(true, 0, 0)], post := [], report := true }],
+   [{ pre := [(true, 0, 1)], post := [(false, 2, 1)], report := true }, { pre := [], post := [], report := true }]]
+
+example : InitOk exNet2 := by decide
+example : FlagsWf (freshSim exNet2 [1, 1, 2] [2, 2, 2]) := ⟨by decide, by decide, by decide⟩
+example : ((runLegs (freshSim exNet2 [1, 1, 2] [2, 2, 2]) exLegs).2.map (·.isoJ)) =
+    [[false, false, false, false], [false, true, true, true], [false, false, false, false]] := by decide
+/-- the pump and the valve are un-flagged at the first step of the continued leg (what seeding from `wn.pipes()` only would miss) -/
+example : ((runLegs (freshSim exNet2 [1, 1, 2] [2, 2, 2]) exLegs).2.map (·.isoL)) =
+    [[false, false, false], [true, true, true], [false, false, false]] := by decide
+/-- an Active valve counts as open; the valve's own control (internal status Active → Open after the solve) forces a re-solve,
+so that pass reports nothing -/
+example : ((runLegs (freshSim exNet2 [1, 1, 2] [2, 2, 2]) exLegs).2.map (·.status)) = [[1, 1, 2], [0, 1, 2], [1, 1, 1]] := by decide
 
 end Wntr.Isolation
